@@ -111,7 +111,7 @@ def _script(rng, tr, dm, maxs, with_idle):
 
 def closerace_gen(rng, tier):
     out = []
-    n = budget(tier, 70, 1500)
+    n = budget(tier, 160, 3000)
     for i in range(n):
         tr = rng.choice(['reuse', 'pipeline'])
         dm = rng.choice(['honour', 'ignore'])
@@ -230,7 +230,7 @@ def startup_gen(rng, tier):
     for i in range(len(order)):
         how = "cert" if order[i] in ("tls", "https", "quic") else rng.choice(["proto", "addr"])
         add("inproc", 0, 1, 0, 0, order, "srv:%d" % i, how)
-    reps = budget(tier, 10, 300)
+    reps = budget(tier, 20, 400)
     for _ in range(reps):
         srv = [rng.choice(PROTOS) for _ in range(rng.randint(0, 5))]
         nu, nd, nr = rng.randint(0, 3), rng.randint(0, 2), rng.randint(0, 3)
